@@ -15,20 +15,37 @@ The model (`Model/Hier.lean`) is one function `chainRows` for IFORM and ISORM (t
 in the leaf value `beta`, which is TABLE'd; the vectorised IFORM path and the scalar ISORM loop
 are both compared with it by the correspondence harness).
 
-Clause → theorem
+Clause → theorem   (every composed theorem is stated on `chainRows c Q Φ (scaleRows β …)`, the
+                    expression the driver ops `iform2` / `iformN` of Drv/C01.lean evaluate)
   mapped back … is the sphere point, for every n / hierarchy     contour_rosenblatt_image
-  … hence at distance beta                                        contour_point_radius
-  the hierarchy (conditional_on[i] < i) is necessary              chain_refuses_non_hierarchy
-  exactly n_points points                                         contour_row_count, circle_row_count
-  2-D: unit circle, first point on the positive first axis        circle_unit, circle_first_point
-  2-D: the n equally spaced directions are pairwise distinct      circle_points_distinct
-  2-D IFORM: largest first variable = first point = Q₀(Φ(β))      iform_max_first_variable
-  … and Q₀(Φ(β)) = Q₀(1-α) given Φ(Φ⁻¹(1-α)) = 1-α               iform_first_point_is_marginal_quantile,
-                                                                  iform_max_first_variable_is_marginal_quantile
+  … hence at distance beta: every contour row has a Rosenblatt
+    image u with ‖u‖² = β² (unit rows as hypothesis, any n)      contour_radius
+    2-D, unit rows = circleRows cos sin angles (no hypothesis)    iform2_contour_radius
+    (pieces: contour_point_radius, circle_unit, scaleRows_spec)
+  the chain is defined EXACTLY for hierarchical structures        chain_defined_iff_hierarchy
+    (necessary: chain_refuses_non_hierarchy; sufficient for every
+     leaf Q: chain_defined_of_hierarchy, contour_defined_of_hierarchy)
+  exactly n_points points                                         contour_row_count, circle_row_count,
+                                                                  realCircleAngles_length
+  2-D: unit circle, first point on the positive first axis        circle_unit, circle_first_point, realCircleAngles_succ
+  2-D: the n rows of circleRows at the model's angles are
+    pairwise distinct; so are the β-scaled points for β ≠ 0       circle_rows_nodup, iform2_sphere_nodup
+    (closed-form lemma on cos(2πk/n), sin(2πk/n))                 circle_points_distinct
+    (realCircleAngles = the formula of circleAngles/linspaceNoEnd read over ℝ; the Float list itself
+     is compared bit for bit with the code by the harness)
+  2-D IFORM: row k of the contour starts with Q₀(Φ(β cos φ_k))    iform2_first_coordinate (uses invRos_head)
+  2-D IFORM: largest first variable = first point = Q₀(1-α),
+    on the contour, given Φ(β) = 1-α, β ≥ 0, Q₀∘Φ monotone        iform2_max_first_variable, iform2_max_first_variable_circle
+    (free-function lemmas used by it, not about the contour)      iform_max_first_variable,
+                                                                  iform_max_first_variable_is_marginal_quantile,
+                                                                  iform_first_point_is_marginal_quantile_trivial
   Φ(Φ⁻¹(1-α)) = 1-α for scipy's norm.cdf/ppf                      observed per run (oracle compares with icdf(1-α))
   TransformedModel branch of IFORMContour._compute                not modelled here (C16 covers it)
-  n_dim ≥ 3: NSphere returns unit vectors (normalised rows of one
-  of the visited states)                                          normalize_unit, bestState_mem, bestState_unit
+  n_dim ≥ 3: the unit rows are an INPUT of the driver op `iformN` (NSphere is run by the real code
+  only); `contour_radius` takes "rows are unit vectors" as hypothesis, the harness checks it on the
+  NSphere output of every run. The three theorems below are mathematics about a sketch of NSphere
+  (`normalizeRow`, `bestState`, defined in this file, NOT executed by the driver, not compared with
+  the code):                                                      normalize_unit, bestState_mem, bestState_unit
   distinct directions, n_dim ≥ 3 (NSphere)                        observed per run (partial)
 -/
 import VirVerif.Lemmas.Hier
@@ -113,6 +130,109 @@ theorem chain_refuses_non_hierarchy (c : Nat → Option Nat) (Q : Nat → Option
     invRos c Q ps = none :=
   invRosAux_none_of_not_hier c Q [] ps i j (by simp) (by simpa using hi) hc hj
 
+/-- the chain only appends: the prefix `acc` is kept in the result -/
+theorem invRosAux_prefix (c : Nat → Option Nat) (Q : Nat → Option α → α → α)
+    (acc ps row : List α) (h : invRosAux c Q acc ps = some row) :
+    ∀ k, k < acc.length → row[k]? = acc[k]? := by
+  induction ps generalizing acc with
+  | nil =>
+    simp only [invRosAux, Option.some.injEq] at h
+    subst h; intros; rfl
+  | cons p ps ih =>
+    simp only [invRosAux] at h
+    cases hr : readCond acc (c acc.length) with
+    | none => rw [hr] at h; cases h
+    | some g =>
+      rw [hr] at h
+      intro k hk
+      have := ih _ h k (by simp; omega)
+      rw [this, List.getElem?_append_left hk]
+
+/-- **first coordinate of a chained row**: with an unconditional first dimension the first
+coordinate of the row is the marginal quantile of the first probability, whatever follows. -/
+theorem invRos_head (c : Nat → Option Nat) (Q : Nat → Option α → α → α) (hc0 : c 0 = none)
+    (p : α) (ps row : List α) (h : invRos c Q (p :: ps) = some row) :
+    row.head? = some (Q 0 none p) := by
+  unfold invRos at h
+  simp only [invRosAux, List.length_nil, hc0, readCond] at h
+  have := invRosAux_prefix c Q _ ps row h 0 (by simp)
+  rw [List.head?_eq_getElem?, this]; simp
+
+theorem invRosAux_defined_of_hier (c : Nat → Option Nat) (Q : Nat → Option α → α → α)
+    (acc ps : List α) (hier : Hier c (acc.length + ps.length)) :
+    ∃ row, invRosAux c Q acc ps = some row ∧ row.length = acc.length + ps.length := by
+  induction ps generalizing acc with
+  | nil => exact ⟨acc, rfl, by simp⟩
+  | cons p ps ih =>
+    have hlen : acc.length < acc.length + (p :: ps).length := by simp
+    obtain ⟨g, hg⟩ : ∃ g, readCond acc (c acc.length) = some g := by
+      cases hc : c acc.length with
+      | none => exact ⟨none, rfl⟩
+      | some j =>
+        have := hier _ j hlen hc
+        exact ⟨some acc[j], by simp [readCond, this]⟩
+    have e : (acc ++ [Q acc.length g p]).length + ps.length = acc.length + (p :: ps).length := by
+      simp; omega
+    obtain ⟨row, h1, h2⟩ := ih (acc ++ [Q acc.length g p]) (e ▸ hier)
+    exact ⟨row, by simp only [invRosAux, hg]; exact h1, by rw [h2, e]⟩
+
+/-- **the hierarchy is sufficient** (converse of `chain_refuses_non_hierarchy`), for EVERY leaf `Q`
+(no inverse law needed): a hierarchical structure never makes the chain read an unset column. -/
+theorem chain_defined_of_hierarchy (c : Nat → Option Nat) (Q : Nat → Option α → α → α)
+    (ps : List α) (hier : Hier c ps.length) :
+    ∃ row, invRos c Q ps = some row ∧ row.length = ps.length := by
+  obtain ⟨row, h1, h2⟩ := invRosAux_defined_of_hier c Q [] ps (by simpa using hier)
+  exact ⟨row, h1, by simpa using h2⟩
+
+/-- **the chain refuses exactly when the structure is not hierarchical** on the dimensions used. -/
+theorem chain_defined_iff_hierarchy (c : Nat → Option Nat) (Q : Nat → Option α → α → α)
+    (ps : List α) : (invRos c Q ps).isSome ↔ Hier c ps.length := by
+  constructor
+  · intro h i j hi hc
+    by_contra hj
+    rw [chain_refuses_non_hierarchy c Q ps i j hi hc (by omega)] at h
+    cases h
+  · intro hier
+    obtain ⟨row, h, _⟩ := chain_defined_of_hierarchy c Q ps hier
+    simp [h]
+
+/-- row `k` of the contour is the chain of sphere point `k` -/
+theorem chainRows_get (c : Nat → Option Nat) (Q : Nat → Option α → α → α) (Φ : α → α)
+    (sphere rows : List (List α)) (h : chainRows c Q Φ sphere = some rows) (k : Nat)
+    (hk : k < sphere.length) : invRos c Q (sphere[k].map Φ) = rows[k]? :=
+  ((optMapM_eq_some_iff _ _ _).mp h).2 k hk
+
+/-- the whole contour is defined for a hierarchical structure, for every leaf `Q` and `Φ` -/
+theorem contour_defined_of_hierarchy (c : Nat → Option Nat) (Q : Nat → Option α → α → α)
+    (Φ : α → α) (n : Nat) (hier : Hier c n) (sphere : List (List α))
+    (hlen : ∀ u ∈ sphere, u.length = n) :
+    ∃ rows, chainRows c Q Φ sphere = some rows ∧ rows.length = sphere.length := by
+  obtain ⟨rows, h⟩ := optMapM_isSome (fun u => invRos c Q (u.map Φ)) sphere (fun u hu => by
+    obtain ⟨row, h, _⟩ := chain_defined_of_hierarchy c Q (u.map Φ) (by simpa [hlen u hu] using hier)
+    exact ⟨row, h⟩)
+  exact ⟨rows, h, contour_row_count c Q Φ sphere rows h⟩
+
+/-- **2-D contour as the driver builds it: first coordinate of every point.** With an
+unconditional first dimension, row `k` of `chainRows c Q Φ (scaleRows β (circleRows cos sin angles))`
+(the expression of `Drv/C01.lean`, op `iform2`) has first coordinate `Q₀(Φ(β·cos φ_k))`. -/
+theorem iform2_first_coordinate {α : Type} [Mul α] (c : Nat → Option Nat)
+    (Q : Nat → Option α → α → α) (Φ cos sin : α → α) (β : α) (angles : List α)
+    (rows : List (List α)) (hc0 : c 0 = none)
+    (h : chainRows c Q Φ (scaleRows β (circleRows cos sin angles)) = some rows) (k : Nat)
+    (hk : k < angles.length) :
+    ∃ row, rows[k]? = some row ∧ row.head? = some (Q 0 none (Φ (β * cos angles[k]))) := by
+  have hk' : k < (scaleRows β (circleRows cos sin angles)).length := by
+    simpa [scaleRows, circleRows] using hk
+  have hg := chainRows_get c Q Φ _ rows h k hk'
+  have hl := contour_row_count c Q Φ _ rows h
+  have hkr : k < rows.length := by omega
+  rw [List.getElem?_eq_getElem hkr] at hg ⊢
+  refine ⟨rows[k], rfl, ?_⟩
+  have e : (scaleRows β (circleRows cos sin angles))[k] = [β * cos angles[k], β * sin angles[k]] := by
+    simp [scaleRows, circleRows]
+  rw [e] at hg
+  exact invRos_head c Q hc0 _ _ _ hg
+
 section field
 variable {K : Type} [Field K]
 
@@ -126,14 +246,43 @@ theorem normSq_scale (β : K) (d : List K) : normSq (d.map fun v => β * v) = β
     simp only [normSq, List.map_cons, List.sum_cons] at ih ⊢
     rw [ih]; ring
 
-/-- **distance beta**: the Rosenblatt image of a contour point is `β·d` with `d` a unit
-vector, so its squared norm is `β²`. -/
+/-- (piece of `contour_radius`, which states it for the contour) a vector `β·d` with `d` a unit
+vector has squared norm `β²`. -/
 theorem contour_point_radius (β : K) (d : List K) (hd : normSq d = 1) :
     normSq (d.map fun v => β * v) = β * β := by
   rw [normSq_scale, hd, mul_one]
 
 theorem scaleRows_spec (β : K) (rows : List (List K)) :
     scaleRows β rows = rows.map (fun r => r.map fun v => β * v) := rfl
+
+/-- **distance beta, stated for the contour itself** (any number of dimensions, any hierarchy):
+for unit rows `d` (‖d‖² = 1, length `n`) the contour `chainRows c Q Φ (scaleRows β unit)` — the
+expression the driver ops `iform2`/`iformN` evaluate — is defined, has one row per unit row, and
+every row has a Rosenblatt image `u` (through the model's own cdfs and `Φ⁻¹`) with `‖u‖² = β²`. -/
+theorem contour_radius (c : Nat → Option Nat) (F Q : Nat → Option K → K → K)
+    (Φ Φinv : K → K) (P : K → Prop)
+    (hFQ : ∀ i g p, P p → F i g (Q i g p) = p) (hΦ : ∀ u, P (Φ u) ∧ Φinv (Φ u) = u)
+    (n : Nat) (hier : Hier c n) (β : K) (unit : List (List K))
+    (hlen : ∀ d ∈ unit, d.length = n) (hunit : ∀ d ∈ unit, normSq d = 1) :
+    ∃ rows, chainRows c Q Φ (scaleRows β unit) = some rows ∧ rows.length = unit.length ∧
+      ∀ k (_ : k < unit.length), ∃ row u, rows[k]? = some row ∧ row.length = n ∧
+        ros c (fun i g x => Φinv (F i g x)) row = some u ∧ normSq u = β * β := by
+  have hlen' : ∀ u ∈ scaleRows β unit, u.length = n := by
+    intro u hu
+    simp only [scaleRows, List.mem_map] at hu
+    obtain ⟨d, hd, rfl⟩ := hu
+    simpa using hlen d hd
+  obtain ⟨rows, h1, h2, h3⟩ :=
+    contour_rosenblatt_image c F Q Φ Φinv P hFQ hΦ n hier (scaleRows β unit) hlen'
+  have hsl : (scaleRows β unit).length = unit.length := by simp [scaleRows]
+  refine ⟨rows, h1, by rw [h2, hsl], ?_⟩
+  intro k hk
+  obtain ⟨row, hr1, hr2, hr3⟩ := h3 k (by rw [hsl]; exact hk)
+  refine ⟨row, _, hr1, hr2, hr3, ?_⟩
+  have e : (scaleRows β unit)[k]'(by rw [hsl]; exact hk) = unit[k].map fun v => β * v := by
+    simp [scaleRows]
+  rw [e]
+  exact contour_point_radius β _ (hunit _ (List.getElem_mem hk))
 
 end field
 
@@ -155,8 +304,9 @@ theorem circle_first_point (rest : List ℝ) :
     (circleRows Real.cos Real.sin (0 :: rest)).head? = some [1, 0] := by
   simp [circleRows]
 
-/-- **distinct directions (2-D)**: the `n` directions `(cos(2πk/n), sin(2πk/n))`, `k < n`, at the
-equally spaced angles of the 2-D circle are pairwise distinct. -/
+/-- **distinct directions (2-D), closed form**: the `n` directions `(cos(2πk/n), sin(2πk/n))`, `k < n`, at the
+equally spaced angles of the 2-D circle are pairwise distinct. (The statement about the model's
+`circleRows` is `circle_rows_nodup`, about the β-scaled points `iform2_sphere_nodup`.) -/
 theorem circle_points_distinct (n : ℕ) (hn : 0 < n) (i j : ℕ) (hi : i < n) (hj : j < n)
     (hc : Real.cos (2 * Real.pi * i / n) = Real.cos (2 * Real.pi * j / n))
     (hs : Real.sin (2 * Real.pi * i / n) = Real.sin (2 * Real.pi * j / n)) : i = j := by
@@ -184,7 +334,52 @@ theorem circle_points_distinct (n : ℕ) (hn : 0 < n) (i j : ℕ) (hi : i < n) (
   rw [hk0] at h3
   omega
 
-/-- **2-D IFORM: the largest first-variable value is attained at the first point and equals
+/-- the angles of the 2-D circle read over the reals: the formula of `circleAngles` /
+`linspaceNoEnd 0 2π n` (`k * ((2π - 0)/n) + 0`) with `Float.ofNat` read as the cast `ℕ → ℝ`. -/
+noncomputable def realCircleAngles (n : ℕ) : List ℝ :=
+  (List.range n).map fun k : ℕ => (k : ℝ) * ((2 * Real.pi - 0) / n) + 0
+
+theorem realCircleAngles_eq (n : ℕ) :
+    realCircleAngles n = (List.range n).map fun k : ℕ => 2 * Real.pi * k / n := by
+  unfold realCircleAngles
+  apply List.map_congr_left
+  intro k _
+  ring
+
+theorem realCircleAngles_length (n : ℕ) : (realCircleAngles n).length = n := by
+  simp [realCircleAngles]
+
+/-- the first angle is `0` (the first point lies on the positive first axis) -/
+theorem realCircleAngles_succ (n : ℕ) : ∃ rest, realCircleAngles (n + 1) = 0 :: rest := by
+  refine ⟨(List.range n).map fun k : ℕ => ((k + 1 : ℕ) : ℝ) * ((2 * Real.pi - 0) / (n + 1 : ℕ)) + 0, ?_⟩
+  simp [realCircleAngles, List.range_succ_eq_map, Function.comp_def]
+
+/-- **distinct directions (2-D), for the model's own point list**: the rows
+`circleRows cos sin (realCircleAngles n)` are pairwise distinct. -/
+theorem circle_rows_nodup (n : ℕ) :
+    (circleRows Real.cos Real.sin (realCircleAngles n)).Nodup := by
+  rw [realCircleAngles_eq]
+  simp only [circleRows, List.map_map]
+  apply List.Nodup.map_on _ List.nodup_range
+  intro i hi j hj h
+  rw [List.mem_range] at hi hj
+  simp only [Function.comp_apply, List.cons.injEq, and_true] at h
+  exact circle_points_distinct n (by omega) i j hi hj h.1 h.2
+
+/-- **distinct directions of the β-sphere points (2-D)**: for `β ≠ 0` the scaled points
+`β·(cos φ_k, sin φ_k)` that the chain is fed with are pairwise distinct (all at the same distance
+`|β|` from the origin, so they are `n` distinct directions). For `β = 0` (α = 1/2) all points
+collapse to the origin: the hypothesis is necessary. -/
+theorem iform2_sphere_nodup (n : ℕ) (β : ℝ) (hβ : β ≠ 0) :
+    (scaleRows β (circleRows Real.cos Real.sin (realCircleAngles n))).Nodup := by
+  unfold scaleRows
+  apply List.Nodup.map _ (circle_rows_nodup n)
+  apply List.map_injective_iff.mpr
+  intro a b hab
+  exact mul_left_cancel₀ hβ hab
+
+/-- (free-function lemma; the statement on the contour is `iform2_max_first_variable`)
+**2-D IFORM: the largest first-variable value is attained at the first point and equals
 `Q₀(Φ(β))`** (with `Φ(β) = 1-α` this is the marginal (1-α)-quantile): for `β ≥ 0` and
 `u ↦ Q₀(Φ(u))` monotone, every point's first coordinate `Q₀(Φ(β cos φ))` is at most
 `Q₀(Φ(β cos 0))`. -/
@@ -195,14 +390,18 @@ theorem iform_max_first_variable (Q0 Φ : ℝ → ℝ) (hmono : Monotone fun u =
   have := Real.cos_le_one φ
   nlinarith
 
-/-- **the first 2-D IFORM point is the marginal (1-α)-quantile**: with `β = Φ⁻¹(1-α)` and `Φ` a right inverse
+/-- (one-step rewriting, `cos 0 = 1` and the hypothesis; about free functions — the statement on
+the contour is `iform2_max_first_variable`) the first 2-D IFORM point is the marginal (1-α)-quantile: with `β = Φ⁻¹(1-α)` and `Φ` a right inverse
 of `Φ⁻¹` AT `1-α` (`Φ(Φ⁻¹(1-α)) = 1-α`; this direction is not given by `hΦ` of `contour_rosenblatt_image`,
 which only has `Φ⁻¹ ∘ Φ = id`), the first coordinate of the point at angle 0 is `Q₀(1-α)`. -/
-theorem iform_first_point_is_marginal_quantile (Q0 Φ Φinv : ℝ → ℝ) (oma : ℝ)
+theorem iform_first_point_is_marginal_quantile_trivial (Q0 Φ Φinv : ℝ → ℝ) (oma : ℝ)
     (hright : Φ (Φinv oma) = oma) : Q0 (Φ (Φinv oma * Real.cos 0)) = Q0 oma := by
   rw [Real.cos_zero, mul_one, hright]
 
-/-- **2-D IFORM: every point's first coordinate is at most the marginal (1-α)-quantile `Q₀(1-α)`, and the
+/-- (free-function form: the list of first coordinates is written out by hand here; that it IS the
+list of first coordinates of the contour is `iform2_first_coordinate`, the composed statement is
+`iform2_max_first_variable`)
+**2-D IFORM: every point's first coordinate is at most the marginal (1-α)-quantile `Q₀(1-α)`, and the
 first point attains it** (the clause "the largest first-variable value on a 2-D IFORM contour is exactly that
 variable's marginal (1-alpha)-quantile" at full strength, for `α ≤ 1/2` i.e. `β = Φ⁻¹(1-α) ≥ 0`). -/
 theorem iform_max_first_variable_is_marginal_quantile (Q0 Φ Φinv : ℝ → ℝ)
@@ -210,7 +409,7 @@ theorem iform_max_first_variable_is_marginal_quantile (Q0 Φ Φinv : ℝ → ℝ
     (angles : List ℝ) :
     (∀ φ ∈ 0 :: angles, Q0 (Φ (Φinv oma * Real.cos φ)) ≤ Q0 oma) ∧
       ((0 :: angles).map fun φ => Q0 (Φ (Φinv oma * Real.cos φ))).head? = some (Q0 oma) := by
-  have h0 := iform_first_point_is_marginal_quantile Q0 Φ Φinv oma hright
+  have h0 := iform_first_point_is_marginal_quantile_trivial Q0 Φ Φinv oma hright
   refine ⟨fun φ _ => ?_, by simp only [List.map_cons, List.head?_cons]; rw [h0]⟩
   rw [← h0]
   exact iform_max_first_variable Q0 Φ hmono (Φinv oma) hβ φ
@@ -220,7 +419,98 @@ example : (∀ φ ∈ (0 : ℝ) :: [1, 2], id (id (id (1 : ℝ) * Real.cos φ)) 
     (((0 : ℝ) :: [1, 2]).map fun φ => id (id (id (1 : ℝ) * Real.cos φ))).head? = some (id 1) :=
   iform_max_first_variable_is_marginal_quantile id id id monotone_id 1 (by norm_num [id]) rfl [1, 2]
 
-/-! ### NSphere (n_dim ≥ 3): the returned points are unit vectors -/
+/-- **2-D IFORM, on the contour the driver computes** (`chainRows c Q Φ (scaleRows β (circleRows cos
+sin angles))`, first angle `0`): for a hierarchical 2-D structure, `β ≥ 0`, `Φ(β) = 1-α` and
+`u ↦ Q₀(Φ(u))` monotone, the contour is defined, has one row per angle, row `k` starts with
+`Q₀(Φ(β·cos φ_k))`, row 0 starts with the marginal quantile `Q₀(1-α)`, and no row starts with a
+larger value. (`Hier c 2` gives `c 0 = none`: the first dimension is unconditional.) -/
+theorem iform2_max_first_variable (c : Nat → Option Nat) (Q : Nat → Option ℝ → ℝ → ℝ) (Φ : ℝ → ℝ)
+    (hier : Hier c 2) (hmono : Monotone fun u => Q 0 none (Φ u)) (β oma : ℝ) (hβ : 0 ≤ β)
+    (hright : Φ β = oma) (rest : List ℝ) :
+    ∃ rows, chainRows c Q Φ (scaleRows β (circleRows Real.cos Real.sin (0 :: rest))) = some rows ∧
+      rows.length = rest.length + 1 ∧
+      (∀ k (hk : k < (0 :: rest).length), ∃ row, rows[k]? = some row ∧
+          row.head? = some (Q 0 none (Φ (β * Real.cos (0 :: rest)[k])))) ∧
+      (∃ row, rows[0]? = some row ∧ row.head? = some (Q 0 none oma)) ∧
+      ∀ (k : ℕ) (row : List ℝ) (x : ℝ), rows[k]? = some row → row.head? = some x → x ≤ Q 0 none oma := by
+  have hc0 : c 0 = none := by
+    cases h : c 0 with
+    | none => rfl
+    | some j => exact absurd (hier 0 j (by omega) h) (by omega)
+  obtain ⟨rows, hrows, hl⟩ := contour_defined_of_hierarchy c Q Φ 2 hier
+    (scaleRows β (circleRows Real.cos Real.sin (0 :: rest))) (by
+      intro u hu
+      simp only [scaleRows, circleRows, List.map_map, List.mem_map] at hu
+      obtain ⟨φ, _, rfl⟩ := hu
+      rfl)
+  have hl' : rows.length = rest.length + 1 := by simpa [scaleRows, circleRows] using hl
+  have hfirst := iform2_first_coordinate c Q Φ Real.cos Real.sin β (0 :: rest) rows hc0 hrows
+  refine ⟨rows, hrows, hl', hfirst, ?_, ?_⟩
+  · obtain ⟨row, h1, h2⟩ := hfirst 0 (by simp)
+    refine ⟨row, h1, ?_⟩
+    rw [h2]; simp [hright]
+  · intro k row x hk hx
+    have hkl : k < (0 :: rest).length := by
+      have := (List.getElem?_eq_some_iff.mp hk).1
+      simp; omega
+    obtain ⟨row', h1, h2⟩ := hfirst k hkl
+    rw [hk] at h1; cases h1
+    rw [hx] at h2; cases h2
+    rw [← hright]
+    have := iform_max_first_variable (Q 0 none) Φ hmono β hβ ((0 :: rest)[k])
+    simpa using this
+
+/-- the same on the model's equally spaced angles (`n_points = n + 1 ≥ 1`): the largest first
+variable of the 2-D IFORM contour is the marginal (1-α)-quantile and the first point attains it. -/
+theorem iform2_max_first_variable_circle (c : Nat → Option Nat) (Q : Nat → Option ℝ → ℝ → ℝ)
+    (Φ : ℝ → ℝ) (hier : Hier c 2) (hmono : Monotone fun u => Q 0 none (Φ u)) (β oma : ℝ)
+    (hβ : 0 ≤ β) (hright : Φ β = oma) (n : ℕ) :
+    ∃ rows, chainRows c Q Φ (scaleRows β (circleRows Real.cos Real.sin (realCircleAngles (n + 1))))
+        = some rows ∧ rows.length = n + 1 ∧
+      (∃ row, rows[0]? = some row ∧ row.head? = some (Q 0 none oma)) ∧
+      ∀ (k : ℕ) (row : List ℝ) (x : ℝ), rows[k]? = some row → row.head? = some x → x ≤ Q 0 none oma := by
+  obtain ⟨rest, hrest⟩ := realCircleAngles_succ n
+  have hlen : rest.length = n := by
+    have := realCircleAngles_length (n + 1)
+    rw [hrest] at this; simpa using this
+  obtain ⟨rows, h1, h2, _, h4, h5⟩ := iform2_max_first_variable c Q Φ hier hmono β oma hβ hright rest
+  exact ⟨rows, by rw [hrest]; exact h1, by omega, h4, h5⟩
+
+/-- **2-D contour at distance β** (`contour_radius` on the circle the driver builds): every row of
+`chainRows c Q Φ (scaleRows β (circleRows cos sin angles))` has a Rosenblatt image at squared
+distance `β²` from the origin. -/
+theorem iform2_contour_radius (c : Nat → Option Nat) (F Q : Nat → Option ℝ → ℝ → ℝ)
+    (Φ Φinv : ℝ → ℝ) (P : ℝ → Prop)
+    (hFQ : ∀ i g p, P p → F i g (Q i g p) = p) (hΦ : ∀ u, P (Φ u) ∧ Φinv (Φ u) = u)
+    (hier : Hier c 2) (β : ℝ) (angles : List ℝ) :
+    ∃ rows, chainRows c Q Φ (scaleRows β (circleRows Real.cos Real.sin angles)) = some rows ∧
+      rows.length = angles.length ∧
+      ∀ k (_ : k < angles.length), ∃ row u, rows[k]? = some row ∧ row.length = 2 ∧
+        ros c (fun i g x => Φinv (F i g x)) row = some u ∧ normSq u = β * β := by
+  have h := contour_radius c F Q Φ Φinv P hFQ hΦ 2 hier β (circleRows Real.cos Real.sin angles)
+    (by
+      intro d hd
+      simp only [circleRows, List.mem_map] at hd
+      obtain ⟨φ, _, rfl⟩ := hd
+      rfl)
+    (circle_unit angles)
+  simpa [circle_row_count] using h
+
+/-- non-vacuity of `iform2_contour_radius` / `iform2_max_first_variable`: independent identity
+leaves (`c = none`, `F = Q = Φ = Φ⁻¹ = id`) meet every hypothesis. -/
+example : ∃ rows, chainRows (fun _ => none) (fun _ _ p => p) id
+    (scaleRows 2 (circleRows Real.cos Real.sin (realCircleAngles 4))) = some rows ∧ rows.length = 4 ∧
+    (∃ row, rows[0]? = some row ∧ row.head? = some (2 : ℝ)) ∧
+    ∀ (k : ℕ) (row : List ℝ) (x : ℝ), rows[k]? = some row → row.head? = some x → x ≤ 2 :=
+  iform2_max_first_variable_circle (fun _ => none) (fun _ _ p => p) id
+    (fun i j _ h => by cases h) (fun a b h => h) 2 2 (by norm_num) rfl 3
+
+/-! ### NSphere (n_dim ≥ 3): the returned points are unit vectors
+
+Mathematics about an UN-EXECUTED sketch: `normalizeRow` and `bestState` are defined here, are not
+part of the driver and are not compared with `NSphere` of the code (the driver op `iformN` receives
+the unit rows the real NSphere produced as input; the harness checks their norms).
+`bestState_unit` holds for any predicate (it is `bestState_mem` applied). -/
 
 /-- row normalisation of NSphere (`points /= np.linalg.norm(points, axis=1, keepdims=True)`) -/
 noncomputable def normalizeRow (v : List ℝ) : List ℝ := v.map fun x => x / Real.sqrt (normSq v)
